@@ -1,6 +1,6 @@
 from vlib.common import nt_len, NOTE, SCHED_TRUSTED
 
-_COQ = ["Common/ListLemmas.v", "Routine/Model.v", "Routine/Spec.v", "Routine/Proofs.v"]
+_COQ = ["Backoff/Model.v", "Common/ListLemmas.v", "Routine/Model.v", "Routine/Spec.v", "Routine/Proofs.v"]
 # model_satisfies_monitors for all event lists (the monitors against the model): Routine/ProofsMon.v and what it needs
 _MON_COQ = ["Routine/ProofsMonInv.v", "Routine/ProofsMonObs.v", "Routine/ProofsMonStep.v", "Routine/ProofsMonDef.v", "Routine/ProofsMonR.v",
             "Routine/ProofsMonNB.v", "Routine/ProofsMonEv.v", "Routine/ProofsMonBook.v", "Routine/ProofsMonBk.v", "Routine/ProofsMon.v"]
